@@ -706,3 +706,26 @@ func SelfTestUTF8Valid() (checked int, mismatch string) {
 	}
 	return checked, ""
 }
+
+// SelfTestSelectByte: the term for table[i] with a symbolic i evaluates to the table's byte for every
+// index, for tables of several lengths and index widths.
+func SelfTestSelectByte() (checked int, mismatch string) {
+	tables := []string{"0123456789abcdef", "ab", "xyz", "0123456789", strings.Repeat("q", 200) + "Z"}
+	for _, table := range tables {
+		for _, w := range []int{8, 32, 64} {
+			v := smt.Var(fmt.Sprintf("sb_i_%d", w), w)
+			term, ok := selectByteTerm(v, table)
+			if !ok {
+				return checked, "select term not built"
+			}
+			for k := 0; k < len(table); k++ {
+				got := smt.Eval(term, map[string]uint64{v.Name: uint64(k)}, map[*smt.Term]uint64{})
+				if byte(got) != table[k] {
+					return checked, fmt.Sprintf("table %q index %d width %d: term gives %d", table[:4], k, w, got)
+				}
+				checked++
+			}
+		}
+	}
+	return checked, ""
+}
